@@ -6,8 +6,8 @@ Local Open Scope nat_scope.
 
 Ltac rst := cbn [write read1 read2 slots wpc rpc nw n1 n2 wseq rseq recv
                  set_slots set_slot set_counts set_wpc set_rpc add_recv
-                 mark payload slept rlock tk parked1 woken1 bc wt wparked wwoken fillseq
-                 sl_lists sl_fill sl_mark sl_writer sl_rlock] in *.
+                 mark payload pm c_one c_multi c_resps slept rlock tk parked1 woken1 bc wt wparked wwoken fillseq
+                 sl_lists sl_fill sl_mark sl_clear sl_writer sl_rlock] in *.
 
 Section RingInv.
 Variable k : nat.
@@ -174,9 +174,9 @@ Proof.
   assert (H : rlock (slots st s) = true) by (apply (a_lock st I); eexists; exact E). congruence.
 Qed.
 
-Lemma inva_PutLock : forall st st' p s, InvA st -> lstep k st (PutLock p s) = Some st' -> InvA st'.
+Lemma inva_PutLock : forall st st' p s m, InvA st -> lstep k st (PutLock p s m) = Some st' -> InvA st'.
 Proof.
-  intros st st' p s I Hl. cbn [lstep] in Hl.
+  intros st st' p s m I Hl. cbn [lstep] in Hl.
   destruct (negb (rlock (slots st s)) && (memb p (tk (slots st s)) || memb p (woken1 (slots st s)))) eqn:G; [|discriminate].
   apply andb_true_iff in G. destruct G as [G1 G2]. apply negb_true_iff in G1.
   set (x := slots st s) in *.
@@ -196,7 +196,7 @@ Proof.
     destruct Hci as [(C1 & C2 & C3 & C4)|[(C1 & _)|(C1 & _)]]; try congruence.
     match type of Hl with Some (set_slot _ _ ?vv) = _ => remember vv as v eqn:Ev end.
     assert (V : mark v = 1 /\ payload v = Some p /\ fillseq v = fillseq x ++ [p] /\ rlock v = false /\ bc v ++ wt v = [p]).
-    { subst v. destruct (slept (sl_fill x1 p)); rst; rewrite ?M3, ?M4, ?M5, ?M6, ?Hbc, ?Hwt, ?G1; repeat split; reflexivity. }
+    { subst v. destruct (slept (sl_fill x1 p m)); rst; rewrite ?M3, ?M4, ?M5, ?M6, ?Hbc, ?Hwt, ?G1; repeat split; reflexivity. }
     inversion Hl; subst st'. clear Hl.
     clear Ev.
     destruct V as (V1 & V2 & V3 & V4 & V5).
